@@ -27,7 +27,11 @@ FamTotal == UNION { LET base == JoinWith(<<Lab(50), Lab(50), Lab(50), Lab(50), L
 FamByte == UNION { { <<b, 97, 98>> \o <<DOT>> \o com, <<97, b, 98>> \o <<DOT>> \o com, <<97, 98, b>> \o <<DOT>> \o com,
                      ab \o <<DOT>> \o <<b, 97>>, ab \o <<DOT>> \o <<97, b>>, ab \o <<DOT>> \o <<97, b, 97>>,
                      <<b>>, <<b, DOT>>, <<DOT, b>>, ab \o <<DOT, b, DOT>> \o com, ab \o <<b>> } : b \in 1..255 }
-Family == FamLabel \cup FamTotal \cup FamByte
+\* long labels: every length 64..260 (8-bit counters wrap at 128 and 256), alone in front of a TLD and as last label
+FamLong == UNION { { JoinWith(<<Lab(n), com>>, DOT), JoinWith(<<ab, Lab(n)>>, DOT), JoinWith(<<ab, Lab(n), com>>, DOT) \o <<DOT>> } : n \in 64..260 }
+\* a dot at every position around octet 254 of names of 250..262 octets
+FamDot254 == UNION { { JoinWith(<<Lab(63), Lab(63), Lab(63), Lab(j), com>>, DOT), JoinWith(<<Lab(63), Lab(63), Lab(63), Lab(j), ab, com>>, DOT) } : j \in 54..63 }
+Family == FamLabel \cup FamTotal \cup FamByte \cup FamLong \cup FamDot254
 
 \* families are spread over 64 buckets (k = -1: bucket chosen) so that all workers share the evaluation
 Bucket(x) == IF Len(x) = 0 THEN 0 ELSE (Len(x) * 7 + x[Len(x)] + x[(Len(x) + 1) \div 2]) % 64
